@@ -213,9 +213,76 @@ fn err_operator(g: &Group22, v: &Variant22, msg: &str) -> String {
     "unknown-operator".to_string()
 }
 
+/// Does the statement a rustc error quotes contain a closure written by the generator? (`name = src -> op(|x| …)`)
+fn err_statement_has_user_closure(msg: &str) -> bool {
+    for line in msg.lines() {
+        let Some(bar) = line.find('|') else { continue };
+        let code = line[bar + 1..].trim();
+        if let Some(eq) = code.find(" = ") {
+            let name = code[..eq].trim();
+            if !name.is_empty() && name.chars().all(|c| c.is_ascii_alphanumeric() || c == '_') {
+                return code[eq..].contains('|');
+            }
+        }
+    }
+    true
+}
+
 fn history_for(seed: u64, gid: usize, i: usize, n_src: usize) -> History {
     let mut r = Rng::new(seed).fork(0xC22_0000 + gid as u64).fork(i as u64);
-    History::random(&mut r, n_src, 6, 5, 2)
+    if i % 3 == 0 {
+        return History::random(&mut r, n_src, 6, 5, 2);
+    }
+    // sparse: per source and per tick an empty batch with probability ~40 %, items from a 3 x 3 domain, so that
+    // "one input of a binary operator empty in this tick, the other not" is frequent and keys recur across ticks
+    let t = 3 + r.below(5);
+    let mut ticks = Vec::new();
+    for _ in 0..t {
+        let mut per = Vec::new();
+        for _ in 0..n_src {
+            let mut v = Vec::new();
+            if !r.chance(2, 5) {
+                for _ in 0..1 + r.below(4) {
+                    v.push((r.range(0, 2), r.range(0, 2)));
+                }
+            }
+            per.push(v);
+        }
+        ticks.push(per);
+    }
+    for _ in 0..2 {
+        ticks.push(vec![Vec::new(); n_src]);
+    }
+    History { ticks }
+}
+
+/// Did some binary operator of the group see, in some tick, one input empty and the other non-empty, with a key
+/// (whole item for `difference`) of that tick arriving on the then-empty input in a later tick? Returns the kinds.
+fn one_sided_ticks(g: &Group22, trace: &Trace, n_ticks: usize) -> Vec<String> {
+    let mut out = Vec::new();
+    let empty: Vec<It> = Vec::new();
+    for b in &g.bins {
+        let whole = b.kind.starts_with("difference");
+        let at = |site: u16, t: usize| -> &Vec<It> { trace.get(&(site, t as u32)).unwrap_or(&empty) };
+        let mut hit = false;
+        'outer: for t in 0..n_ticks {
+            for (e, f) in [(b.site_a, b.site_b), (b.site_b, b.site_a)] {
+                let (xe, xf) = (at(e, t), at(f, t));
+                if xe.is_empty() && !xf.is_empty() {
+                    for t2 in t + 1..n_ticks {
+                        if at(e, t2).iter().any(|y| xf.iter().any(|x| if whole { x == y } else { x.0 == y.0 })) {
+                            hit = true;
+                            break 'outer;
+                        }
+                    }
+                }
+            }
+        }
+        if hit {
+            out.push(b.kind.clone());
+        }
+    }
+    out
 }
 
 fn case_json(m: &Manifest, g: &Group22, r: &Variant22, v: &Variant22, h: &History, extra: vcommon::Value) -> vcommon::Value {
@@ -297,6 +364,8 @@ pub fn run(args: &Args, m: &Manifest, reg: &Registry) {
     }
     let n_hist = args.budget(200, 600, 3);
     let mut flipped_instances: u64 = 0;
+    let (mut one_sided_pairs, mut one_sided_pairs_with_one_sided_variant) = (0u64, 0u64);
+    let mut one_sided_by_kind: BTreeMap<String, u64> = BTreeMap::new();
     let mut mixed_causes: std::collections::BTreeSet<(String, String)> = Default::default();
     let mut all_fail_causes: Vec<(usize, String, String)> = Vec::new();
     let mut flipped_kinds: BTreeMap<String, u64> = BTreeMap::new();
@@ -305,6 +374,9 @@ pub fn run(args: &Args, m: &Manifest, reg: &Registry) {
     for g in &m.c22 {
         for n in g.kinds.values() {
             rep.count(&format!("op.{}", base_kind(n)));
+        }
+        for b in &g.bins {
+            rep.count(&format!("binop.{}", b.kind));
         }
         let ok_of = |v: &Variant22| v.analysis.ok && !m.rustc_failed.contains_key(&v.prog_id);
         // ---- compile outcomes: all or none
@@ -315,7 +387,9 @@ pub fn run(args: &Args, m: &Manifest, reg: &Registry) {
             // none compiles: consistent with the property; whether the generator is to blame is decided below
             let v = &g.variants[0];
             let msg = if !v.analysis.ok { v.analysis.err.clone() } else { m.rustc_failed.get(&v.prog_id).cloned().unwrap_or_default() };
-            all_fail_causes.push((g.gid, err_class(&msg), err_operator(g, v, &msg)));
+            // the quoted statement carries no generator-written closure: the generator cannot be to blame
+            let class = if err_statement_has_user_closure(&msg) { err_class(&msg) } else { format!("{}:in-generated-code", err_class(&msg)) };
+            all_fail_causes.push((g.gid, class, err_operator(g, v, &msg)));
             continue;
         }
         let r = oks[0];
@@ -328,6 +402,11 @@ pub fn run(args: &Args, m: &Manifest, reg: &Registry) {
                 json!({"engine": "dx_shape", "prop": "C22", "gen_seed": m.seed, "gen_tier": m.tier, "group": g.gid, "variant": v.vid, "ref_variant": r.vid,
                        "inserts": v.inserts, "variant_program": v.text, "ref_program": r.text, "error": msg, "compile_only": true}),
             );
+        }
+        for v in oks.iter() {
+            if let Some(k) = &v.one_sided {
+                rep.count(&format!("one_sided_variant.{k}"));
+            }
         }
         for v in g.variants.iter() {
             for i in &v.inserts {
@@ -363,6 +442,18 @@ pub fn run(args: &Args, m: &Manifest, reg: &Registry) {
                 rep.count("reference_variant_panicked");
                 let _ = msg;
             }
+            if let RunRes::Ok(tr) = &ref_res {
+                let kinds = one_sided_ticks(g, tr, h.n_ticks());
+                if !kinds.is_empty() {
+                    one_sided_pairs += 1;
+                    if oks.iter().any(|v| v.one_sided.is_some()) {
+                        one_sided_pairs_with_one_sided_variant += 1;
+                    }
+                }
+                for k in kinds {
+                    *one_sided_by_kind.entry(k).or_insert(0) += 1;
+                }
+            }
             for v in oks.iter().skip(1) {
                 if reported[v.vid] {
                     continue; // one report per (group, variant) is enough
@@ -376,7 +467,7 @@ pub fn run(args: &Args, m: &Manifest, reg: &Registry) {
     // a group in which no variant compiles is a generator defect unless the same error (class, operator) also
     // makes only *some* variants of another group fail (there the user code is evidently well-typed)
     for (gid, class, op) in &all_fail_causes {
-        if mixed_causes.contains(&(class.clone(), op.clone())) {
+        if mixed_causes.contains(&(class.clone(), op.clone())) || class.ends_with(":in-generated-code") {
             rep.count("groups_where_no_variant_compiles_for_a_cause_seen_in_mixed_groups");
         } else {
             all_fail_groups += 1;
@@ -387,6 +478,11 @@ pub fn run(args: &Args, m: &Manifest, reg: &Registry) {
         rep.count_n(&format!("flip.{k}"), *n);
     }
     rep.count_n("flipped_operator_instances", flipped_instances);
+    rep.count_n("pairs.binary_op_one_input_empty_and_key_recurs_later", one_sided_pairs);
+    rep.count_n("pairs.binary_op_one_input_empty_and_key_recurs_later.with_one_sided_variant", one_sided_pairs_with_one_sided_variant);
+    for (k, n) in &one_sided_by_kind {
+        rep.count_n(&format!("one_input_empty_key_recurs.{k}"), *n);
+    }
     rep.count_n("groups_with_subgraph_count_change", sg_changed_groups);
     rep.count_n("groups", m.c22.len() as u64);
     rep.count_n("programs_compiled", m.c22.iter().map(|g| g.variants.iter().filter(|v| v.analysis.ok && !m.rustc_failed.contains_key(&v.prog_id)).count() as u64).sum());
@@ -405,6 +501,23 @@ pub fn run(args: &Args, m: &Manifest, reg: &Registry) {
         }
         for k in ["identity", "map_id", "tee_null", "union1", "tee1", "union_empty", "handoff"] {
             rep.require(rep.counter(&format!("insert.{k}")) >= 1, &format!("shape perturbation `{k}` never used"));
+        }
+        // binary operators: every family, the mixed persistence combinations, a handoff/tee on exactly one input in
+        // some variant, and histories in which one input is empty while the other is not and the key comes back
+        rep.require(one_sided_pairs_with_one_sided_variant >= 20 * ng, "too few (group, history) pairs in which a binary operator sees one input empty, the other non-empty, and a key of that tick recurs later on the empty input");
+        for fam in crate::g22::BIN_FAMILIES {
+            let c = rep.counter(&format!("one_sided_variant.{fam}"));
+            rep.require(c >= 2, &format!("no variant with a handoff/tee on exactly one input of `{fam}`"));
+            let c = rep.counter(&format!("one_sided_variant.{fam}+both"));
+            rep.require(c >= 2, &format!("no variant with a handoff/tee on both inputs of `{fam}`"));
+        }
+        for k in ["anti_join'tick,'static", "anti_join'static,'tick", "difference'tick,'static", "difference'static,'tick", "join'tick,'static", "join'static,'tick", "cross_singleton'static", "zip'tick,'static"] {
+            let c = rep.counter(&format!("binop.{k}"));
+            rep.require(c >= 1, &format!("binary operator `{k}` never generated"));
+            if !k.starts_with("cross") && !k.starts_with("zip") {
+                let c = one_sided_by_kind.get(k).copied().unwrap_or(0);
+                rep.require(c >= 20, &format!("`{k}` never (or too rarely) saw one input empty with the key recurring later"));
+            }
         }
         rep.require(rep.counter("missing_program_fn") == 0, "a compiled program is missing from the registry");
     }
